@@ -23,6 +23,14 @@ NoClearBlock(ev) ==
 
 Why(ev) ==
   IF ev.e = "consts" THEN (IF Ck!ConstsOK(ev) THEN <<"ok">> ELSE <<"production constants violate sum = 16*BUF_SZ = sizeof b, marks 0/8/10/48, 48+20T, THREAD_MAX = 16">>)
+  ELSE IF ev.e = "rtbig" THEN     \* production chunk size: bytes are compared by the driver, lengths and verdicts here
+       (IF ev.enc_ret # 1 \/ ev.ver_ret # 1 \/ ev.dec_ret # 1 THEN <<"an operation reported failure", ev.enc_ret, ev.ver_ret, ev.dec_ret>>
+        ELSE IF ev.clen # 48 + 20 * ev.T + 16 * ((ev.n \div 16) + 1) THEN <<"ciphertext length differs from 48+20T+16(n div 16 + 1)", ev.clen>>
+        ELSE IF ev.dlen # ev.n \/ ev.equal # 1 THEN <<"decrypted bytes differ from the plaintext", ev.dlen, ev.n>>
+        ELSE IF ev.enc_in_intact # 1 \/ ev.ver_out_len # 0 THEN <<"input modified or verification wrote output">>
+        ELSE IF ev.clear_block = 1 THEN <<"a plaintext block appears untransformed in the body">>
+        ELSE IF Take(ev.head, 8) # F!Magic \/ ev.head[9] # ev.cm \/ ev.head[10] # ev.hm THEN <<"magic / mode bytes wrong">>
+        ELSE <<"ok">>)
   ELSE IF ev.e = "abort" THEN <<"operation did not return normally", ev.how, ev.detail>>
   ELSE IF ev.e # "rt" THEN <<"unknown event">>
   ELSE IF ev.enc_ret # 1 THEN <<"encryption reported failure">>
